@@ -17,9 +17,9 @@ def seqSpec (ext : Ext) (pos : Bool) (dt : DataType) (md : Metadata) (xs : SVals
   | .fixedSizeList (.mk _ cdt cn cmd) n => do
     let vs ← interpAll ext cdt cn cmd xs
     if (vs.length : Int) = n then pure (.list (LVals.ofList vs)) else fail "wrong element count"
-  | .binary | .largeBinary | .binaryView => do pure (.bin (← u8All xs))
+  | .binary | .largeBinary | .binaryView => do pure (.bin (← specBytes xs))
   | .fixedSizeBinary n => do
-    let b ← u8All xs
+    let b ← specBytes xs
     if (b.length : Int) = n then pure (.bin b) else fail "wrong length"
   | .struct fs =>
     if pos then structOf fs.toList (fun f => interpNth ext f.dataType f.nullable f.metadata (indexOfName (fs.toList.map Field.name) f.name |>.getD 0) xs)
@@ -131,7 +131,7 @@ theorem seqLike_interp {ext : Ext} {N : Prop} {xs : SVals} {pe : Bool → B → 
       subst hlv
       simp only [Shape] at hshape
       obtain ⟨rfl, _⟩ := hshape
-      cases ty <;> simp [isBinaryTy] at hbin <;> simp [seqSpec, isUnknownVariant, bytesDT, hbs, bytesVal, isUtf8Ty, Functor.map, Except.map]
+      cases ty <;> simp [isBinaryTy] at hbin <;> simp [seqSpec, isUnknownVariant, bytesDT, (specBytes_ok_iff _ _).2 hbs, bytesVal, isUtf8Ty, Functor.map, Except.map]
     · simp [notSupported, fail] at h
   | bytesView p ty v views buf =>
     simp only [seqLikeWith] at h
@@ -151,7 +151,7 @@ theorem seqLike_interp {ext : Ext} {N : Prop} {xs : SVals} {pe : Bool → B → 
       cases ty
       · exact absurd hbin (by decide)
       · have e : (ViewTy.binaryView == ViewTy.utf8View) = false := by decide
-        simp [seqSpec, isUnknownVariant, viewDT, hbs, bytesVal, e, Functor.map, Except.map]
+        simp [seqSpec, isUnknownVariant, viewDT, (specBytes_ok_iff _ _).2 hbs, bytesVal, e, Functor.map, Except.map]
     · simp [notSupported, fail] at h
   | fixedSizeBinary p kk len v buf cur =>
     simp only [seqLikeWith] at h
@@ -170,7 +170,7 @@ theorem seqLike_interp {ext : Ext} {N : Prop} {xs : SVals} {pe : Bool → B → 
       subst hlv
       simp only [Shape] at hshape
       obtain ⟨rfl, _⟩ := hshape
-      simp [seqSpec, isUnknownVariant, hbs, hn', bind, Except.bind, pure, Except.pure]
+      simp [seqSpec, isUnknownVariant, (specBytes_ok_iff _ _).2 hbs, hn', bind, Except.bind, pure, Except.pure]
   | struct p len v fs cached next seen =>
     have hw' := hwf
     simp only [WFB] at hw'
